@@ -336,7 +336,11 @@ pub fn build(
                 if associated_functions_used_names.contains(&original_name) {
                     function.name = format!("{}_{}", base_name, original_name);
                 }
-                function.body = FunctionBody::field(base_name.clone(), original_name);
+                // Only functions with a receiver can be forwarded to the base sub-object;
+                // one without a receiver keeps its own body, as there is no `self` to go through.
+                if function.arguments.iter().any(|a| a.is_self()) {
+                    function.body = FunctionBody::field(base_name.clone(), original_name);
+                }
                 associated_functions_used_names.insert(function.name.clone());
                 associated_functions.push(function);
             }
